@@ -46,7 +46,10 @@ def coord(rng, esd):
         t = "%.4f" % (k / 8.0)
         return t, float(t), k * 3750          # numerator over 30000
     k = rng.randint(1, 9999)
-    t = "%.4f" % (k / 10000.0)
+    # one coordinate in eight lies outside [0, 1): the file states -0.0312 or 1.0442 and that is what must be stored (the orbit,
+    # and with it the computed multiplicity, is the same)
+    shift = rng.choice([0, 0, 0, 0, 0, 0, 0, -1, 1, -2]) if rng.random() < 0.6 else 0
+    t = "%.4f" % (k / 10000.0 + shift)
     return t + ("(%d)" % rng.randint(1, 9) if esd else ""), float(t), k * 3
 
 
